@@ -77,11 +77,23 @@ def _arr(tag, var):
 def _tensor(tag, var):
     if tag == "grad":
         dt = [torch.float32, torch.float64][var % 2]
+        kind = (var // 2) % 4
+        if kind == 1:        # a leaf that is a view into a larger storage
+            return (torch.arange(12, dtype=dt).reshape(4, 3) / 4)[1:3].requires_grad_(True)
+        if kind == 2:        # a Parameter
+            return torch.nn.Parameter(torch.arange(6, dtype=dt).reshape(2, 3) / 4)
+        if kind == 3:        # non-contiguous leaf (transposed view)
+            return (torch.arange(6, dtype=dt).reshape(3, 2) / 4).t().requires_grad_(True)
         return (torch.arange(6, dtype=dt).reshape(2, 3) / 4).requires_grad_(True)
     dt = T_DTYPES[var % len(T_DTYPES)]
     shape = [(2, 3), (), (0, 3), (4,)][(var // len(T_DTYPES)) % 4]
     n = int(np.prod(shape)) if shape else 1
     base = torch.arange(n).reshape(shape)
+    if (var // 3) % 5 == 4 and len(shape) == 2 and shape[0] > 1 and dt != torch.bool:
+        # a view into a larger storage
+        big = torch.arange(n * 2).reshape(shape[0] * 2, *shape[1:])
+        v = big[::2]
+        return (v + 1j * (v + 1)).to(dt) if dt.is_complex else ((v.to(torch.float64) / 2).to(dt) if dt.is_floating_point else v.to(dt))
     if dt == torch.bool:
         return (base % 2 == 0)
     if dt.is_complex:
